@@ -13,14 +13,15 @@ to Compiler.pre_process by exact dictionary equality on every arrangement text (
 permutation instance is evaluated on the implementation as well."""
 from .. import core, impl
 from ..codecs import MODELLED, py_equal, impl_answer_enc
-from ..gen import Gen, Opts, module_text, ty_sx, val_sx, is_modelled, RefCtx
+from ..gen import Gen, Opts, module_text, ty_sx, val_sx, is_modelled, RefCtx, variant
 
 CODECS = ['ber', 'der', 'per', 'uper', 'oer', 'jer', 'xer', 'gser']
 
 
 def work(job):
     part = core.Part()
-    for (types, arrangements, vals) in job:
+    for (types, groups, vals) in ((ty, g, va) for (ty, gs, va) in job for g in gs):
+        arrangements = groups
         for codec in CODECS:
             specs = []
             for label, text, risky in arrangements:
@@ -137,7 +138,10 @@ def run(ctx):
     jobs = []
     for i in range(ctx.n(90, 2000)):
         g = Gen(rng, opts)
-        types = [('A', g.type()), ('B', g.type())]
+        ta = g.type()
+        # 40 %: the second type is a sibling of the first (same structure and member names, other constraints), so that
+        # after reorganisation both refer to the same named types from members of the same name
+        types = [('A', ta), ('B', variant(g, ta) if rng.random() < 0.4 else g.type())]
         arr = [('inline', module_text(types), False)]
         for k in range(2):
             rc = RefCtx(rng, p_type=rng.choice([0.3, 0.6, 0.9]), p_value=0.4, p_con_on_ref=0.3, con_kinds=('octs',))
@@ -149,14 +153,26 @@ def run(ctx):
         text = module_text(types, ctx=rc)
         if 'size-on-reference' in rc.flags:
             arr.append(('constraint-on-reference', text, True))
+        groups = [arr]
+        plain_untagged = module_text(types, tags='')
+        if not any(k in plain_untagged for k in ('CHOICE', 'SET')):
+            # the same comparison without AUTOMATIC TAGS (members are then not re-copied for tagging by the compiler):
+            # inline vs shared references, in one module and split over two
+            arr2 = [('inline-untagged', plain_untagged, False)]
+            for k in range(2):
+                rc = RefCtx(rng, p_type=rng.choice([0.5, 0.9]), p_value=0.3, p_con_on_ref=0.5, con_kinds=('octs',))
+                arr2.append(('reorganised-untagged', module_text(types, ctx=rc, tags=''), False))
+            rc = RefCtx(rng, p_type=0.7, p_value=0.3, p_con_on_ref=0.5, con_kinds=('octs',))
+            arr2.append(('split-untagged', module_text(types, ctx=rc, tags='', split=True), False))
+            groups.append(arr2)
         vals = [[g.value(t) for _ in range(2)] for _, t in types]
-        jobs.append((types, arr, vals))
+        jobs.append((types, groups, vals))
     n = 28
     parts = core.parallel_map(work, [jobs[k::n] for k in range(n)])
     core.merge(ctx, parts)
     import random
     from .. import prep
-    texts = [(rng.getrandbits(32), text) for _, arr, _ in jobs for _, text, _ in arr]
+    texts = [(rng.getrandbits(32), text) for _, groups, _ in jobs for arr in groups for _, text, _ in arr]
     for i in range(ctx.n(150, 2000)):
         texts.append((rng.getrandbits(32), prep.PGen(random.Random(rng.getrandbits(32))).spec()))
     parts = core.parallel_map(work_prep, [texts[k::n] for k in range(n)])
